@@ -37,7 +37,7 @@ DELIVERABLES in /tmp/seed/{sid}/out/ :
   patch.diff   — `git diff` of the worktree (must apply with `git apply` at the repository root; include regenerated parser .c files if you touched a .y/.l)
   meta.json    — {{"property": "{id}", "kind": "preserving", "summary": "...one sentence: what was refactored...", "files_changed": [...], "functions": [...], "why_behaviour_is_preserved": "..."}}
 Leave the worktree with your change applied and built. When finished, reply with a short summary.'''
-brk = common + '''YOUR TASK: play the role of a developer who makes a REALISTIC change to the source code (an optimisation, a clean-up, a small feature, a "simplification", a mistaken bug fix — the kind of thing that gets through code review) that BREAKS this property for some inputs, while the project still compiles and the existing test suite (`make check`, unedited) still reports 16 PASS, 0 FAIL. Earlier changes of this kind already did the following, so pick a DIFFERENT function and a different kind of mistake: {prev}. Keep the change small (1–25 changed lines) and plausible; no deliberately obfuscated sabotage, no dead code, no special-casing of magic inputs. Do not edit tests, build files or documentation.
+brk = common + '''YOUR TASK: play the role of a developer who makes a REALISTIC change to the source code (an optimisation, a clean-up, a small feature, a "simplification", a mistaken bug fix — the kind of thing that gets through code review) that BREAKS this property for some inputs, while the project still compiles and the existing test suite (`make check`, unedited) still reports 16 PASS, 0 FAIL. Earlier changes of this kind already did the following, so pick a DIFFERENT function and a different kind of mistake: {prev}. Prefer a change that needs something specific to manifest — a particular interleaving, a fault or failure at a particular point, a multi-step sequence of API calls, an unusual input, or two cooperating sites that each look fine alone — not one that ordinary use would expose at once. Keep the change small (1–25 changed lines) and plausible; no deliberately obfuscated sabotage, no dead code, no special-casing of magic inputs. Do not edit tests, build files or documentation.
 
 Then DEMONSTRATE the breakage concretely with the yara/yarac command-line tools built in the worktree (or a tiny C program linked against libyara/.libs/libyara.a): a small script that shows, for specific rule files and input files you create, the behaviour of the unchanged code and the different (wrong) behaviour with your change.
 
